@@ -330,10 +330,13 @@ func c14One(c c14Construct, combo []int) (problems []string, evals int) {
 			}
 		})
 		// two consecutive calls of the group form append two distinct statements
-		if pg == nil {
+		for _, opts := range []jen.Options{c14GroupOpts, {Open: "{", Close: "}", Separator: ";", Multi: true}} {
+			if pg != nil {
+				break
+			}
 			var r1, r2 *jen.Statement
 			var n0, n2 int
-			twice := jen.CustomFunc(c14GroupOpts, func(g *jen.Group) {
+			twice := jen.CustomFunc(opts, func(g *jen.Group) {
 				n0 = reflect.ValueOf(g).Elem().FieldByName("items").Len()
 				a, _ := call(reflect.ValueOf(g).MethodByName(gm.Name), c.args(combo, new(int)), c.isVar)
 				b, _ := call(reflect.ValueOf(g).MethodByName(gm.Name), c.args(combo, new(int)), c.isVar)
@@ -348,7 +351,7 @@ func c14One(c c14Construct, combo []int) (problems []string, evals int) {
 				b, _ := call(reflect.ValueOf(fn), c.args(combo, new(int)), c.isVar)
 				if sa, ok1 := a.Interface().(*jen.Statement); ok1 {
 					if sb, ok2 := b.Interface().(*jen.Statement); ok2 {
-						if got, want := jh.Raw(twice), jh.Raw(jen.Custom(c14GroupOpts, sa, sb)); got.Key() != want.Key() {
+						if got, want := jh.Raw(twice), jh.Raw(jen.Custom(opts, sa, sb)); got.Key() != want.Key() {
 							bad("the *Group method called twice renders %q, Custom(%s(...), %s(...)) renders %q", got, c.name, c.name, want)
 						}
 					}
